@@ -797,11 +797,14 @@ def judge_cases(p, unit, cases, only_key=None):
         try:
             sec = out.get_section("code")
             placed = all(out.get_section(n).address == a for n, a in addr.items() if out.has_section(n))
-            got_S = S in [out.get_symbol_id_value(y.id) for y in out.symbols if y.name == SYM and y.defined]
+            ssec = symbol_section(sc)
+            got_S = S in [out.get_symbol_id_value(y.id) for y in out.symbols if y.name == SYM and y.defined and y.section == ssec]
         except Exception as ex:  # noqa
             p.violation(exc_key("inspect", ex), "reading the linked object raised %r" % (ex,), wit)
             continue
         relaxed = sec.size < sizes["code"]
+        # for the locus only: does ppci's own relocation list still point at the site?
+        rel_ok = relaxed or all(any(r.section == "code" and r.offset == site_off + off for r in out.relocations) for _, off, _ in rels)
         if not placed:
             p.count("unclassified_placement_differs_from_reference")
             continue
@@ -811,8 +814,11 @@ def judge_cases(p, unit, cases, only_key=None):
         if not rep:
             key = "accepts-unrepresentable/%s" % rname_class(arch, names)
             if only_key in (None, key):
-                p.violation(key, "%s %s via %s: %s = %d is not representable (range [%d, %d] step %d) but link succeeded; site bytes %s"
-                            % (arch, rname, topo, "distance to anchor" if spec.kind == "pc" else "address", xa, spec.lo, spec.hi, spec.step,
+                why = "range [%d, %d] step %d" % (spec.lo, spec.hi, spec.step)
+                if spec.rep_site and spec.lo <= xa <= spec.hi:
+                    why = "no encoding at site 0x%x designates it: the field only reaches the site's own 256 MB region" % site
+                p.violation(key, "%s %s via %s: %s = %d (0x%x) is not representable (%s) but link succeeded; site bytes %s"
+                            % (arch, rname, topo, "distance to anchor" if spec.kind == "pc" else "address", xa, xa & (2 ** 64 - 1), why,
                                bytes(sec.data[site_off:site_off + ulen]).hex()), wit)
             p.outcome((arch, rname, topo, "accepted-unrepresentable", size_class(xa)))
             continue
@@ -822,7 +828,7 @@ def judge_cases(p, unit, cases, only_key=None):
             parts.append(raw[o:o + n])
             addrs.append(site + o)
             o += n
-        rec = {"wit": wit, "topo": topo, "site": site, "want": want, "xa": xa, "delta": delta, "parts": parts, "addrs": addrs, "S": S, "sym_ok": got_S, "ti": None}
+        rec = {"wit": wit, "topo": topo, "site": site, "want": want, "xa": xa, "delta": delta, "parts": parts, "addrs": addrs, "S": S, "sym_ok": got_S, "rel_ok": rel_ok, "ti": None}
         if spec.decode:
             rec["ti"] = len(blobs)
             blobs.extend(parts)
@@ -851,8 +857,10 @@ def judge_cases(p, unit, cases, only_key=None):
         cls = rname_class(arch, names)
         if rec["delta"] and err == -rec["delta"]:
             key = "addend-ignored"
+        elif not rec["rel_ok"]:
+            key = "linker/relocation-offset/" + TOPO_GROUP[topo]          # the output's relocation entries do not sit at the site: applied somewhere else
         elif not rec["sym_ok"]:
-            key = "symbol-address/" + topo
+            key = "symbol-address/" + TOPO_GROUP[topo]
         elif abs(err) <= 16:
             key = "reloc/%s/bias" % cls
         else:
@@ -863,6 +871,25 @@ def judge_cases(p, unit, cases, only_key=None):
                         % (arch, rname, topo, rec["S"], rec["delta"], rec["site"], b"".join(parts).hex(), got & m,
                            " ; ".join(t or "?" for t in ts) if spec.decode else "field extractor", want & m, err), rec["wit"])
         p.outcome((arch, rname, topo, "wrong", size_class(xa), xa & 3, rec["delta"] != 0))
+
+
+TOPO_GROUP = {"same-l": "same-section", "same-g": "same-section", "sect-l": "other-section", "sect-g": "other-section", "sect-l2": "other-section",
+              "onemem-f": "other-section", "onemem-b": "other-section", "obj2": "other-object", "obj2-swap": "other-object", "obj2-code": "other-object",
+              "defsym": "layout-symbol", "defsym-after": "layout-symbol", "defsym-before": "layout-symbol", "extra": "extra-symbol"}
+
+
+def symbol_section(sc):
+    """Name of the output section the referenced symbol must end up in (None: absolute)."""
+    k, name = sc["symkey"]
+    for i, o in enumerate(sc["objs"]):
+        for y in o["symbols"]:
+            if y["name"] == name and y["offset"] is not None and (k is None or k == i) and (y["binding"] == "local") == (k is not None):
+                return y["section"]
+    for m in sc["layout"]["memories"]:
+        for kind, arg in m["inputs"]:
+            if kind == "DEFINESYMBOL" and arg == name:
+                return "_$%s_" % name
+    return None
 
 
 def rname_class(arch, names):
